@@ -236,7 +236,10 @@ func dirHash(mod *xgomod.Module, xgo *env.XGo, dir string, self bool) string {
 				continue
 			}
 			if v, e := fi.Info(); e == nil {
-				fmt.Fprintf(h, "file\t%s\t%x\t%x\n", fname, v.Size(), v.ModTime().UnixNano())
+				// The name is written in hex: written raw, a name containing '\t' and '\n'
+				// can spell the fields of further records, so that directories with
+				// different files hash to the same value.
+				fmt.Fprintf(h, "file\t%x\t%x\t%x\n", fname, v.Size(), v.ModTime().UnixNano())
 			}
 		}
 	}
